@@ -283,7 +283,7 @@ impl Tree {
     pub fn search_nodes(&self, cond: impl Fn(&Node) -> bool) -> Vec<NodeId> {
         self.nodes
             .iter()
-            .filter(|node| cond(node))
+            .filter(|node| !node.deleted && cond(node))
             .map(|node| node.id)
             .collect()
     }
@@ -602,7 +602,10 @@ impl Tree {
 
     /// Returns the number of leaves in the tree
     pub fn n_leaves(&self) -> usize {
-        self.nodes.iter().filter(|&node| node.is_tip()).count()
+        self.nodes
+            .iter()
+            .filter(|&node| !node.deleted && node.is_tip())
+            .count()
     }
 
     /// Returns the height of the tree
@@ -2234,7 +2237,7 @@ impl Tree {
             .nodes
             .iter()
             .filter_map(|node| {
-                if node.is_tip() {
+                if !node.deleted && node.is_tip() {
                     node.name.clone()
                 } else {
                     None
